@@ -55,6 +55,11 @@ PROFILES = [
 CUR = {'sched': None, 'exec': [], 'points': {}}
 
 
+def rpc_code(i):
+    # application codes, and the two codes the library itself only ever uses for whole documents
+    return {1: -32600, 3: -32700}.get(i, 3000 + i)
+
+
 def build(shape, concurrent, plain_mw=False):
     points = {i: set(PROFILES[p][2]) for i, p in enumerate(shape)}
 
@@ -92,14 +97,24 @@ def build(shape, concurrent, plain_mw=False):
             await CUR['sched'].point(e, 'eh')
         return error
 
-    disp = pjrpc.server.AsyncDispatcher(middlewares=[mw_plain if plain_mw else mw], error_handlers={None: [eh]},
+    def code_handler(code):
+        # a per-code handler that signs the error it was given; an element must only ever meet the handlers of ITS code
+        async def h(request, context, error):
+            return JsonRpcError(code=error.code, message=error.message, data=[error.data, f'h{code}'])
+        return h
+
+    handlers = {None: [eh]}
+    for i, p in enumerate(shape):
+        if PROFILES[p][1] == 'rpc':
+            handlers[rpc_code(i)] = [code_handler(rpc_code(i))]
+    disp = pjrpc.server.AsyncDispatcher(middlewares=[mw_plain if plain_mw else mw], error_handlers=handlers,
                                         concurrent_batch=concurrent)
 
     def outcome(tok, what):
         if what == 'ok':
             return ['res', tok]
         if what == 'rpc':
-            raise JsonRpcError(code=3000 + tok, message=f'e{tok}', data=tok)
+            raise JsonRpcError(code=rpc_code(tok), message=f'e{tok}', data=tok)
         raise ValueError(f'Zq7_marker_{tok}')
 
     for i, p in enumerate(shape):
@@ -130,7 +145,7 @@ def build(shape, concurrent, plain_mw=False):
             if what == 'ok':
                 want.append({'jsonrpc': '2.0', 'id': rid, 'result': ['res', i]})
             elif what == 'rpc':
-                want.append({'jsonrpc': '2.0', 'id': rid, 'error': {'code': 3000 + i, 'message': f'e{i}', 'data': i}})
+                want.append({'jsonrpc': '2.0', 'id': rid, 'error': {'code': rpc_code(i), 'message': f'e{i}', 'data': [i, f'h{rpc_code(i)}']}})
             else:
                 want.append({'jsonrpc': '2.0', 'id': rid, 'error': {'code': -32000}})
         reqs.append(r)
